@@ -45,7 +45,8 @@ PairsOf(qs) == [k \in 1..Len(qs) |-> [l |-> qs[k].l, r |-> qs[k].r]]
 SettleTags(qs) == [k \in 1..Len(qs) |-> qs[k].settle]
 BuildMk(qs, baseSeq) == Build(PairsOf(qs), baseSeq, SettleTags(qs))
 
-\* C09 owns construction and values; C10 additionally owns sensitivities and everything after construction
+\* C09 owns construction and VALUES (in every state a history reaches: the quoted pairs, the diagonal and the path
+\* products must hold whatever operations came before); C10 additionally owns sensitivities
 Sens == Prop # "C09"
 \* does the logged projection `s` agree with the specification's market (st, qs, order)?
 StateOK(st, qs, order, s) ==
@@ -118,24 +119,24 @@ Given == /\ l = 0 /\ Len(Hist[h].ev) > 0 /\ Ev.op = "given"
             /\ why' = "given"
          /\ l' = 1 /\ UNCHANGED h
 \* update: refused without changing anything, or rebuilt from the latest quotes at order 1
-Upd == /\ Prop # "C09" /\ l > 0 /\ ok /\ l < Len(Hist[h].ev) /\ Ev.op = "update" /\ st.phase = "ready"
+Upd == /\ l > 0 /\ ok /\ l < Len(Hist[h].ev) /\ Ev.op = "update" /\ st.phase = "ready"
        /\ IF KnownAll(qs, Ev.quotes) /\ BuildMk(ApplyUpd(qs, Ev.quotes, 1), <<st.idx[1]>>).phase = "ready"
           THEN LET q2 == ApplyUpd(qs, Ev.quotes, 1) b == BuildMk(q2, <<st.idx[1]>>) IN
                /\ st' = b /\ qs' = q2 /\ order' = 1
                /\ ok' = (Ev.o = "ok" /\ StateOK(b, q2, 1, Ev.state)) /\ pl' = l + 1 /\ why' = "update:accepted"
           ELSE /\ UNCHANGED <<st, qs, order>>
-               /\ ok' = (Ev.o = "err" /\ Ev.state = prev)              \* refused: nothing at all changed
+               /\ ok' = (Ev.o = "err" /\ (IF Sens THEN Ev.state = prev ELSE Ev.state.re = prev.re /\ Ev.state.ccys = prev.ccys))   \* refused: nothing at all changed
                /\ pl' = pl /\ why' = "update:refused"
        /\ l' = l + 1 /\ UNCHANGED h
 \* derivative order: exponents untouched, values bit-identical to the previous state
-SetOrd == /\ Prop # "C09" /\ l > 0 /\ ok /\ l < Len(Hist[h].ev) /\ Ev.op = "set_order" /\ st.phase = "ready"
+SetOrd == /\ l > 0 /\ ok /\ l < Len(Hist[h].ev) /\ Ev.op = "set_order" /\ st.phase = "ready"
           /\ order' = Ev.order /\ UNCHANGED <<st, qs>>
           /\ ok' = (Ev.o = "ok" /\ StateOK(st, qs, Ev.order, Ev.state) /\ SameValues(Ev.state.re, prev.re))
           /\ pl' = l + 1 /\ why' = "set_order"
           /\ l' = l + 1 /\ UNCHANGED h
 \* a history is finished when every event is consumed (or it was rejected); any other state without a successor
 \* is reported by TLC as a deadlock, i.e. an event the specification has no action for
-Finish == (l = Len(Hist[h].ev) \/ ~ok \/ (Prop = "C09" /\ l >= 1)) /\ UNCHANGED vars
+Finish == (l = Len(Hist[h].ev) \/ ~ok) /\ UNCHANGED vars
 Next == New \/ Given \/ Upd \/ SetOrd \/ Finish
 Accepted == ok
 \* the judge is the DECLARATIVE layer: whenever the specification's construction ends ready its exponents are
